@@ -474,4 +474,249 @@ theorem T_txtRdataBody : T txtRdataBody (AcceptedBy "validate_as_txt") := by
   subst he
   exact T_mkRdata hlen ⟨validateAsTxt, by simp [validateHandler], txt_valid hne hes⟩
 
+/-! ### RFC 3597 generic form -/
+
+theorem readFieldOctet_lt {st st' : St} {d : UInt8} (h : readFieldOctet st = some (d, st')) :
+    st'.inp.length < st.inp.length := by
+  unfold readFieldOctet at h
+  split at h
+  · cases h
+  · split at h
+    · cases h
+    · next c rest heq => cases h; simp [heq]
+
+theorem T_parseHexDigit : T parseHexDigit (fun _ => True) := by
+  intro st
+  unfold parseHexDigit
+  cases h : readFieldOctet st with
+  | none => simp [Good, fail]
+  | some p =>
+    obtain ⟨d, st'⟩ := p
+    have := readFieldOctet_lt h
+    simp only
+    split
+    · simp [Good]; omega
+    · simp [Good, fail]
+
+theorem T_hexDigits (n : Nat) (acc : List UInt8) :
+    T (hexDigits n acc) (fun rd => rd.length = acc.length + n) := by
+  induction n generalizing acc with
+  | zero => unfold hexDigits; exact T_pure (by simp)
+  | succ n ih =>
+    unfold hexDigits
+    refine T_bind T_parseHexDigit ?_; intro hi _
+    refine T_bind T_parseHexDigit ?_; intro lo _
+    exact (ih _).weaken (fun rd h => by simp at h; omega)
+
+theorem T_parseUnknownRdataImpl : T parseUnknownRdataImpl (fun r => r.2.length ≤ 65535) := by
+  unfold parseUnknownRdataImpl
+  refine T_bind (T_skipToNextField _ (by decide)) ?_; intro _ _
+  refine T_bind (T_readU16 _ (by decide)) ?_; intro len hlen
+  have jp : ∀ res : Nat × List UInt8, res.2.length ≤ 65535 → T (do
+      expectEol
+      pure res) (fun r => r.2.length ≤ 65535) := by
+    intro res hres
+    refine T_bind T_expectEol ?_; intro _ _
+    exact T_pure hres
+  dsimp only
+  split
+  · refine T_bind (Q := fun (r : Nat × List UInt8) => r.2.length ≤ 65535) ?_ jp
+    refine T_bind T_getLine ?_; intro l _
+    exact T_pure (by simp)
+  · refine T_bind (T_skipToNextField _ (by decide)) ?_; intro _ _
+    refine T_bind T_getLine ?_; intro l _
+    refine T_bind (T_hexDigits len []) ?_; intro rd hrd
+    refine T_bind (T_mkRdata (Q := fun r => r.length ≤ 65535) (by simp at hrd; omega) (by simp at hrd; omega)) ?_
+    intro rd' hrd'
+    refine T_bind (T_pure (Q := fun (r : Nat × List UInt8) => r.2.length ≤ 65535) hrd') jp
+
+theorem T_parseUnknownRdata : T parseUnknownRdata (fun rd => rd.length ≤ 65535) := by
+  unfold parseUnknownRdata
+  refine T_bind T_parseUnknownRdataImpl ?_; intro r hr
+  exact T_pure hr
+
+/-- the validator names used by the zone-file parser's handlers -/
+def knownValidators : List String :=
+  ["validate_name", "validate_as_in_a", "validate_as_ch_a", "validate_as_soa", "validate_as_in_wks",
+   "validate_as_hinfo", "validate_as_minfo", "validate_as_mx", "validate_as_txt", "validate_as_in_aaaa",
+   "validate_as_in_srv", "ok"]
+
+theorem knownValidators_some {v : String} (hv : v ∈ knownValidators) : ∃ f, validateHandler v = some f := by
+  simp only [knownValidators, List.mem_cons, List.mem_nil_iff, or_false] at hv
+  rcases hv with rfl | rfl | rfl | rfl | rfl | rfl | rfl | rfl | rfl | rfl | rfl | rfl
+  all_goals exact ⟨_, by simp [validateHandler]; rfl⟩
+
+/-- the `\#` form: the RDATA is checked by the handler's validator -/
+theorem T_parseUnknownRdataWithValidation {v : String} (hv : v ∈ knownValidators) :
+    T (parseUnknownRdataWithValidation v) (AcceptedBy v) := by
+  unfold parseUnknownRdataWithValidation
+  refine T_bind T_parseUnknownRdataImpl ?_; intro r hr
+  obtain ⟨f, hf⟩ := knownValidators_some hv
+  simp only [hf]
+  cases hres : f r.2.toArray with
+  | ok u => exact T_pure ⟨f, hf, by cases u; exact hres⟩
+  | err e => exact T_failAt (by decide)
+  | panic => exact absurd hres (validateHandler_ne_panic (by simpa [knownValidators] using hv) hf _)
+
+theorem T_checkBackslashHash (k : Kind) (hk : k ≠ .ModelStuck) : T (checkBackslashHash k) (fun _ => True) := by
+  unfold checkBackslashHash
+  refine T_bind (T_skipToNextField k hk) ?_; intro _ _
+  exact T_expectExact _
+
+/-! ### handlers and dispatch -/
+
+/-- the validator a handler applies to RDATA in `\#` form (generated table `rdataHandlers`) -/
+def validatorFor (h : String) : String :=
+  match Gen.rdataHandlers.find? (fun x => x.1 == h) with
+  | some x => x.2.2
+  | none => ""
+
+/-- the handlers named in the generated `parse_rdata` table -/
+def handlerNames : List String := Gen.parseRdataArms.map (·.2.2)
+
+theorem handlerNames_eq : handlerNames =
+    ["parse_name_rdata", "parse_in_a_rdata", "parse_ch_a_rdata", "parse_soa_rdata", "parse_in_wks_rdata",
+     "parse_hinfo_rdata", "parse_minfo_rdata", "parse_mx_rdata", "parse_txt_rdata", "parse_in_aaaa_rdata",
+     "parse_in_srv_rdata"] := by decide
+
+theorem T_runHandler_aux {name : String} (expected : String) {validator : String} {ctx : Ctx}
+    {body : P (List UInt8)}
+    (hfind : Gen.rdataHandlers.find? (fun h => h.1 == name) = some (name, expected, validator))
+    (hv : validator ∈ knownValidators)
+    (hbody : handlerBody name ctx = body) (hT : T body (AcceptedBy validator)) :
+    T (runHandler name ctx) (AcceptedBy (validatorFor name)) := by
+  have e : validatorFor name = validator := by simp [validatorFor, hfind]
+  rw [e]
+  unfold runHandler
+  rw [hfind]
+  simp only
+  refine T_bind (T_checkBackslashHash _ ?_) ?_
+  · unfold kindOfString; repeat' split
+    all_goals decide
+  · intro b _
+    split
+    · exact T_parseUnknownRdataWithValidation hv
+    · rw [hbody]; exact hT
+
+/-- every handler of the dispatch table yields RDATA its validator accepts, in typed and in
+    generic form -/
+theorem T_runHandler {name : String} (hname : name ∈ handlerNames) {ctx : Ctx} (hctx : CtxWF ctx) :
+    T (runHandler name ctx) (AcceptedBy (validatorFor name)) := by
+  rw [handlerNames_eq] at hname
+  simp only [List.mem_cons, List.mem_nil_iff, or_false] at hname
+  rcases hname with rfl | rfl | rfl | rfl | rfl | rfl | rfl | rfl | rfl | rfl | rfl
+  · exact T_runHandler_aux "ExpectedNameOrBh" (by decide) (by decide) rfl (T_nameRdataBody hctx)
+  · exact T_runHandler_aux "ExpectedIpv4OrBh" (by decide) (by decide) rfl T_inARdataBody
+  · exact T_runHandler_aux "ExpectedNameOrBh" (by decide) (by decide) rfl (T_chARdataBody hctx)
+  · exact T_runHandler_aux "ExpectedNameOrBh" (by decide) (by decide) rfl (T_soaRdataBody hctx)
+  · exact T_runHandler_aux "ExpectedIpv4OrBh" (by decide) (by decide) rfl T_inWksRdataBody
+  · exact T_runHandler_aux "ExpectedCharacterStringOrBh" (by decide) (by decide) rfl T_hinfoRdataBody
+  · exact T_runHandler_aux "ExpectedNameOrBh" (by decide) (by decide) rfl (T_minfoRdataBody hctx)
+  · exact T_runHandler_aux "ExpectedU16OrBh" (by decide) (by decide) rfl (T_mxRdataBody hctx)
+  · exact T_runHandler_aux "ExpectedCharacterStringOrBh" (by decide) (by decide) rfl T_txtRdataBody
+  · exact T_runHandler_aux "ExpectedIpv6OrBh" (by decide) (by decide) rfl T_inAaaaRdataBody
+  · exact T_runHandler_aux "ExpectedU16OrBh" (by decide) (by decide) rfl (T_inSrvRdataBody hctx)
+
+/-- two generated dispatch tables agree arm by arm: same type patterns, same class guards, and
+    the second table's handler is the image of the first's under `vOf` -/
+def agree (vOf : String → String) :
+    List (List Nat × Option Nat × String) → List (List Nat × Option Nat × String) → Bool
+  | [], _ => true
+  | _ :: _, [] => false
+  | x :: xs, y :: ys => x.1 == y.1 && x.2.1 == y.2.1 && vOf x.2.2 == y.2.2 && agree vOf xs ys
+
+def guardOK (g : Option Nat) (c : Nat) : Bool :=
+  match g with
+  | none => true
+  | some k => c == k
+
+theorem lookup_cons (tys : List Nat) (g : Option Nat) (h : String)
+    (rest : List (List Nat × Option Nat × String)) (dflt : String) (c t : Nat) :
+    Rdata.lookup ((tys, g, h) :: rest) dflt c t =
+      if (tys.contains t && guardOK g c) = true then h
+      else Rdata.lookup rest dflt c t := by
+  cases g <;> rfl
+
+theorem lookup_agree (vOf : String → String) (dflt : String) (cls ty : Nat)
+    (a1 a2 : List (List Nat × Option Nat × String)) (h : agree vOf a1 a2 = true) :
+    match a1.find? (armMatches cls ty) with
+    | some a => Rdata.lookup a2 dflt cls ty = vOf a.2.2
+    | none => Rdata.lookup a2 dflt cls ty = Rdata.lookup (a2.drop a1.length) dflt cls ty := by
+  induction a1 generalizing a2 with
+  | nil => simp
+  | cons x xs ih =>
+    cases a2 with
+    | nil => simp [agree] at h
+    | cons y ys =>
+      simp only [agree, Bool.and_eq_true, beq_iff_eq] at h
+      obtain ⟨⟨⟨h1, h2⟩, h3⟩, h4⟩ := h
+      obtain ⟨ty1, g1, n1⟩ := x
+      obtain ⟨ty2, g2, n2⟩ := y
+      simp only at h1 h2 h3
+      subst h1 h2
+      have hguard : armMatches cls ty (ty1, g1, n1) = (ty1.contains ty && guardOK g1 cls) := by
+        unfold armMatches guardOK
+        cases g1 with
+        | none => rfl
+        | some g => simp only; rw [Bool.beq_comm]
+      rw [List.find?_cons, hguard, lookup_cons]
+      generalize (ty1.contains ty && guardOK g1 cls) = b
+      cases b
+      · simp only [List.length_cons, List.drop_succ_cons, Bool.false_eq_true, ↓reduceIte]
+        exact ih ys h4
+      · simp only [↓reduceIte]
+        exact h3.symm
+
+theorem tables_agree : agree validatorFor Gen.parseRdataArms Gen.rdataValidateArms = true := by decide
+
+theorem findArm_mem {cls ty : Nat} {h : String} (hf : findArm cls ty = some h) : h ∈ handlerNames := by
+  unfold findArm at hf
+  split at hf
+  · next a ha =>
+    cases hf
+    exact List.mem_map.mpr ⟨a, List.mem_of_find?_eq_some ha, rfl⟩
+  · cases hf
+
+/-- the `parse_rdata` dispatch and the `Rdata::validate` dispatch select matching
+    handler / validator pairs for every class and type -/
+theorem dispatch_agree {cls ty : Nat} {h : String} (hf : findArm cls ty = some h) :
+    Rdata.lookup Gen.rdataValidateArms Gen.rdataValidateDefault cls ty = validatorFor h := by
+  have := lookup_agree validatorFor Gen.rdataValidateDefault cls ty _ _ tables_agree
+  unfold findArm at hf
+  split at hf
+  · next a ha => cases hf; rw [ha] at this; exact this
+  · cases hf
+
+theorem dispatch_default {cls ty : Nat} (hf : findArm cls ty = none) (h41 : ty ≠ 41) (h250 : ty ≠ 250) :
+    Rdata.lookup Gen.rdataValidateArms Gen.rdataValidateDefault cls ty = "ok" := by
+  have := lookup_agree validatorFor Gen.rdataValidateDefault cls ty _ _ tables_agree
+  unfold findArm at hf
+  split at hf
+  · cases hf
+  · next ha =>
+    rw [ha] at this
+    rw [this]
+    simp [Gen.parseRdataArms, Gen.rdataValidateArms, Rdata.lookup, Gen.rdataValidateDefault, h41, h250]
+
+/-- `parse_rdata`: the RDATA it returns passes `Rdata::validate` for the record's class and type -/
+theorem T_parseRdata {ctx : Ctx} (hctx : CtxWF ctx) (cls ty : Nat) (h41 : ty ≠ 41) (h250 : ty ≠ 250) :
+    T (parseRdata ctx cls ty) (fun rd => validate cls ty rd = .ok ()) := by
+  unfold parseRdata
+  split
+  · next h hf =>
+    refine (T_runHandler (findArm_mem hf) hctx).weaken ?_
+    intro rd ⟨f, hfv, hok⟩
+    unfold validate Rdata.validate
+    rw [dispatch_agree hf, hfv]
+    exact hok
+  · next hf =>
+    refine T_bind (T_checkBackslashHash _ (by decide)) ?_; intro b _
+    split
+    · exact T_fail (by decide)
+    · refine T_parseUnknownRdata.weaken ?_
+      intro rd _
+      unfold validate Rdata.validate
+      rw [dispatch_default hf h41 h250]
+      simp [validateHandler]
+
 end QV.ZF
